@@ -26,6 +26,7 @@ fn dispatch(op: &str, args: &[String]) -> String {
         "attrs" => ops_xml::attrs(args),
         "chardata" => ops_dom::chardata(args),
         "dom" => ops_domhist::dom(args),
+        "domx" => ops_domhist::domx(args),
         "nameok" => ops_names::nameok(args),
         "query" => ops_xpath::query(args),
         "qfresh" => ops_xpath::qfresh(args),
